@@ -351,11 +351,29 @@ def run_case(case, ctx):
             (root / ".idea" / "workspace.xml").write_text("<x/>\n")
             res.cell("personal-ignore-file")
         submods = setup_git(rng, root, nodes) if case["git"] else []
+        outer = False
+        if not case["git"] and k % 4 == 1:
+            # the project is a sub-directory of a larger Git work tree: ignore rules live above it, Git speaks in paths of its own
+            outer = True
+            trees.git(root.parent, "init", "-q")
+            (root.parent / ".gitignore").write_text("*.o\nbuild/\n*.gen.*\n")
+            for rel, text in (("build/out.txt", "b\n"), ("obj/main.o", "o\n"), ("obj/keep.c", "c\n"), ("x.gen.py", "g\n")):
+                fp = root / rel
+                if not os.path.lexists(fp.parent) or (fp.parent.is_dir() and not fp.parent.is_symlink()):
+                    try:
+                        fp.parent.mkdir(parents=True, exist_ok=True)
+                        if not os.path.lexists(fp):
+                            fp.write_text(text)
+                    except OSError:
+                        pass
+            trees.git(root.parent, "add", "-A", check=False)
+            trees.git(root.parent, "commit", "-q", "-m", "init", check=False)
+            res.cell("vcs:work-tree-above-the-project")
         if not os.path.lexists(root / "subprojects") and rng.random() < 0.3:
             (root / "subprojects" / "libfoo").mkdir(parents=True)
             (root / "subprojects" / "libfoo" / "foo.c").write_text("x\n")
             (root / "subprojects" / "foo.wrap").write_text("[wrap]\n")
-        ignored = git_ignored(root, submods) if case["git"] else set()
+        ignored = git_ignored(root, submods) if (case["git"] or outer) else set()
         opts = {"submodules": rng.random() < 0.4, "meson": rng.random() < 0.4}
         covered, grey, reasons = model(nodes, str(root), ignored, submods, opts)
         gopts = ["--no-multiprocessing", "--root", str(root)]
